@@ -389,3 +389,53 @@ func VerifEmptyManagerRunsOnce() {
 	zzverif.Assert(!ran, "runner_added_after_start_never_runs")
 	zzverif.Cover("empty_manager_done")
 }
+
+// The grace period also covers closers registered while the manager runs: a runner that blocks until its context ends
+// keeps the manager running, a slow closer is added with AddCloser during the run (next to a quick one registered
+// before), then the context is cancelled; the late closer outlasts the grace period: the fatal-shutdown action fires,
+// and not before the period is over; if it finishes in time, it does not.
+//
+//verif:harness prop=C12 name=fatal_with_closer_added_during_run threads=6 sched=delay preempt=1 t_preempt=2 unwind=10 witness=lenient race=off
+func VerifFatalWithLateCloser() {
+	grace := 5 * time.Second
+	start := zzverif.TimeFromNanos(1_000_000_000)
+	clk := zzverifstubs.NewClock(start)
+	mgr := NewRunnerCloserManager(vNopLogger(), &grace, func(ctx context.Context) error {
+		<-ctx.Done()
+		return nil
+	})
+	mgr.clock = clk
+	fatal := 0
+	mgr.WithFatalShutdown(func() { zzverif.Ghost(func() { fatal++ }) })
+	zzverif.Assert(mgr.AddCloser(func() error { return nil }) == nil, "closer_accepted")
+	ctx, cancel := context.WithCancel(context.Background())
+	done := make(chan error, 1)
+	go func() { done <- mgr.Run(ctx) }()
+	zzverif.WaitQuiescent()
+	slow := zzverif.Bool("late_closer_outlasts_grace")
+	release := make(chan struct{})
+	lateRan := 0
+	zzverif.Assert(mgr.AddCloser(func() error {
+		zzverif.Ghost(func() { lateRan++ })
+		if slow {
+			<-release
+		}
+		return nil
+	}) == nil, "closer_registered_during_run_accepted")
+	cancel()
+	zzverif.WaitQuiescent()
+	zzverif.Assert(lateRan == 1, "closer_registered_during_run_is_invoked")
+	if slow {
+		zzverif.Assert(fatal == 0, "no_fatal_before_grace")
+		clk.Advance(grace)
+		zzverif.WaitQuiescent()
+		zzverif.Assert(fatal == 1, "fatal_when_closers_outlast_grace")
+		close(release)
+	} else {
+		clk.Advance(grace)
+		zzverif.WaitQuiescent()
+		zzverif.Assert(fatal == 0, "no_fatal_when_closers_finish_in_time")
+	}
+	zzverif.Assert(<-done == nil, "run_returns_nil")
+	zzverif.Cover("fatal_with_closer_added_during_run_done")
+}
